@@ -42,6 +42,10 @@ def _lib():
     from pmutt.empirical.nasa import Nasa, Nasa9, SingleNasa9
     from pmutt.empirical.shomate import Shomate
     from pmutt.mixture.cov import PiecewiseCovEffect
+    from pmutt.empirical.references import Reference
+    from pmutt.statmech import StatMech
+    from pmutt.statmech.vib import HarmonicVib
+    from pmutt import constants as pc
 
     class ProbeTP(_ModelBase):
         """Harness probe without name_j: value (8 a + (T/256)(4 P)) / 64."""
@@ -60,6 +64,9 @@ def _lib():
 
         def get_SoR(self, T, P=1.0):
             return self._v(3.0, T, P)
+
+        def get_GoRT(self, T, P=1.0):
+            return self.get_HoRT(T=T, P=P) - self.get_SoR(T=T, P=P)
 
         def to_dict(self):
             return {'class': str(self.__class__), 'tag': self.tag}
@@ -83,6 +90,9 @@ def _lib():
         def get_SoR(self, T, x=0.0):
             return self._v(3.0, T, x)
 
+        def get_GoRT(self, T, x=0.0):
+            return self.get_HoRT(T=T, x=x) - self.get_SoR(T=T, x=x)
+
         def to_dict(self):
             return {'class': str(self.__class__), 'name_j': self.name_j, 'scale': self.scale}
 
@@ -103,6 +113,7 @@ def _lib():
     L.pj = pj
     L.GasPressureAdj, L.Nasa, L.Nasa9, L.SingleNasa9 = GasPressureAdj, Nasa, Nasa9, SingleNasa9
     L.Shomate, L.Cov, L.ProbeTP, L.ProbeTx = Shomate, PiecewiseCovEffect, ProbeTP, ProbeTx
+    L.Reference, L.StatMech, L.HarmonicVib, L.const = Reference, StatMech, HarmonicVib, pc
     _LIB = L
     return L
 
@@ -119,9 +130,31 @@ GRID_SLOPES = {'B': [8.0, -4.0, 2.0], 'C': [-16.0, 6.0, 1.0]}
 T_LOW, T_MID, T_HIGH = 100.0, 600.0, 5000.0
 
 
-def _mk(fam, coef, **kw):
+EMPIRICAL = ('Nasa', 'Nasa9', 'Shomate')
+GRID_COEF['StatMech'] = {'wn': [500.0, 1200.0]}
+GRID_COEF['Reference'] = {}
+DIM_UNITS = ('J/mol/K', 'kJ/mol/K', 'L kPa/mol/K', 'cm3 kPa/mol/K', 'm3 Pa/mol/K', 'cm3 MPa/mol/K',
+             'm3 bar/mol/K', 'L bar/mol/K', 'L torr/mol/K', 'cal/mol/K', 'kcal/mol/K', 'L atm/mol/K',
+             'cm3 atm/mol/K', 'eV/K', 'Eh/K', 'Ha/K')           # every key of pmutt.constants.R
+
+
+def _mk(fam, coef, via='direct', **kw):
+    """Build a carrier of misc_models.  via='from_data' goes through the family's alternative
+    constructor (fit of data sampled from the directly constructed bare polynomial)."""
     import numpy as np
     L = _lib()
+    if fam == 'StatMech':                                  # no phase / add_gas_P_adj there
+        kw = {k: v for k, v in kw.items() if k in ('misc_models', 'elements')}
+        return L.StatMech(name='A', vib_model=L.HarmonicVib(vib_wavenumbers=list(coef['wn'])), **kw)
+    if fam == 'Reference':
+        return L.Reference(name='A', T_ref=298.15, HoRT_ref=1.0, **kw)
+    if via == 'from_data':
+        src = _mk(fam, coef, phase=None, misc_models=None)
+        Td = np.linspace(T_LOW, T_HIGH, 60)
+        cp = np.array([_flat(src.get_CpoR(T=float(t)))[0] for t in Td])
+        h0, s0 = _flat(src.get_HoRT(T=298.15))[0], _flat(src.get_SoR(T=298.15))[0]
+        cls = {'Nasa': L.Nasa, 'Nasa9': L.Nasa9, 'Shomate': L.Shomate}[fam]
+        return cls.from_data(name='A', T=Td, CpoR=cp, T_ref=298.15, HoRT_ref=h0, SoR_ref=s0, **kw)
     if fam == 'Nasa':
         return L.Nasa(name='A', T_low=T_LOW, T_mid=T_MID, T_high=T_HIGH,
                       a_low=list(coef['a_low']), a_high=list(coef['a_high']), **kw)
@@ -134,7 +167,27 @@ def _mk(fam, coef, **kw):
     raise core.MachineryError('unknown family %r' % (fam,))
 
 
-def _model(kind, slopes):
+def _twin(obj, fam):
+    """The same polynomial / modes without any attached model (built from the object's own
+    coefficients, so it also fits species that came out of from_data)."""
+    import copy
+    import numpy as np
+    L = _lib()
+    if fam == 'Nasa':
+        return L.Nasa(name='A', T_low=obj.T_low, T_mid=obj.T_mid, T_high=obj.T_high,
+                      a_low=np.array(obj.a_low), a_high=np.array(obj.a_high), elements=obj.elements)
+    if fam == 'Nasa9':
+        return L.Nasa9(name='A', nasas=[L.SingleNasa9(T_low=n.T_low, T_high=n.T_high, a=np.array(n.a))
+                                        for n in obj.nasas], elements=obj.elements)
+    if fam == 'Shomate':
+        return L.Shomate(name='A', T_low=obj.T_low, T_high=obj.T_high, a=np.array(obj.a),
+                         units=obj.units, elements=obj.elements)
+    if fam == 'StatMech':
+        return L.StatMech(name='A', vib_model=copy.deepcopy(obj.vib_model), elements=obj.elements)
+    raise core.MachineryError('no twin for family %r' % (fam,))
+
+
+def _model(kind, slopes, occ=0):
     L = _lib()
     if kind == 'PAdj':
         return L.GasPressureAdj()
@@ -142,8 +195,9 @@ def _model(kind, slopes):
         return dict(PADJ_DICT)
     if kind in ('CovB', 'CovC'):
         j = kind[-1]
-        return L.Cov(name_i='A', name_j=j, intervals=[0.0, 0.3, 0.6], slopes=list(slopes[j]),
-                     name='A' + j)
+        sl = list(slopes[j]) if occ == 0 else [v * (-0.5 - 0.25 * occ) for v in slopes[j]]
+        return L.Cov(name_i='A', name_j=j, intervals=[0.0, 0.3, 0.6], slopes=sl,
+                     name='A' + j + (str(occ) if occ else ''))
     if kind == 'P1':
         return L.ProbeTP()
     if kind == 'P2B':
@@ -220,6 +274,12 @@ def _typed_T(Ts, scalar, ttype):
     import numpy as np
     if ttype == 'float':
         return Ts[0] if scalar else np.array(Ts)
+    if ttype == 'npfloat':
+        return np.float64(Ts[0]) if scalar else np.array(Ts)
+    if ttype == 'floatlist':
+        return Ts[0] if scalar else list(Ts)
+    if ttype == 'tuple':
+        return Ts[0] if scalar else tuple(Ts)
     if any(t != int(t) for t in Ts):
         raise core.MachineryError('integer-typed T needs integer temperatures: %r' % (Ts,))
     ints = [int(t) for t in Ts]
@@ -260,28 +320,65 @@ def _nonint_contribution(ms):
     return False
 
 
+FLOAT_TYPES = ('float', 'npfloat', 'floatlist', 'tuple')
+DIM_GETTER = {'Cp': 'get_Cp', 'H': 'get_H', 'S': 'get_S', 'G': 'get_G'}
+
+
+def _typed_P(P, ptype):
+    import numpy as np
+    if ptype == 'float':
+        return float(P)
+    if ptype == 'npfloat':
+        return np.float64(P)
+    if P != int(P):
+        raise core.MachineryError('integer-typed P needs an integer pressure: %r' % (P,))
+    return int(P) if ptype == 'int' else np.int64(int(P))
+
+
+def _conditions(op):
+    """kwargs that carry the coverages, and the coverage each name_j effectively gets.
+    routed: {'B_kwargs': {'x': xB}, 'C_kwargs': {'x': xC}} (documented form);  toplevel: x=xB for
+    every model;  missingC / missingBoth: nothing passed for that species - the documented default
+    of PiecewiseCovEffect.get_* is x = 0."""
+    xB, xC = float(op['xB']), float(op['xC'])
+    form = op.get('xform', 'routed')
+    if form == 'routed':
+        return {'B_kwargs': {'x': xB}, 'C_kwargs': {'x': xC}}, xB, xC
+    if form == 'toplevel':
+        return {'x': xB}, xB, xB
+    if form == 'missingC':
+        return {'B_kwargs': {'x': xB}}, xB, 0.0
+    if form == 'missingBoth':
+        return {}, 0.0, 0.0
+    raise core.MachineryError('unknown xform %r' % (form,))
+
+
 def _eval_event(case, objs, op):
     """Evaluate species op['o'] and build the trace event; also returns the raw values."""
-    import numpy as np
+    fam = case['fam']
     obj = objs[op['o'] - 1]
     Ts = [float(t) for t in op['Ts']]
-    P, xB, xC = float(op['P']), float(op['xB']), float(op['xC'])
+    P = float(op['P'])
     ttype = op.get('ttype', 'float')
+    ptype = op.get('ptype', 'float')
     Targ = _typed_T(Ts, bool(op['scalar']), ttype)
-    cond = {'B_kwargs': {'x': xB}, 'C_kwargs': {'x': xC}}
+    Parg = _typed_P(P, ptype)
+    cond, xB, xC = _conditions(op)
+    opts = {'S_elements': True} if op.get('S_el') else {}
     raw, ok, exc = {}, {}, {}
     for q in QS:
-        ok[q], raw[q], exc[q] = _call(getattr(obj, GETTER[q]), T=Targ, P=P, **cond)
+        kw = dict(cond, **(opts if q in ('S', 'G') else {}))
+        ok[q], raw[q], exc[q] = _call(getattr(obj, GETTER[q]), T=Targ, P=Parg, **kw)
     for q, name in (('S1', 'get_SoR'), ('G1', 'get_GoRT')):       # default pressure
-        ok[q], raw[q], exc[q] = _call(getattr(obj, name), T=Targ, **cond)
+        ok[q], raw[q], exc[q] = _call(getattr(obj, name), T=Targ, **dict(cond, **opts))
     fin = all(core.finite(v) for q in raw for v in raw[q])
-    twin = _mk(case['fam'], case['coef'], phase=None, misc_models=None)
+    twin = _twin(obj, fam)
     bare = {'Cp': [], 'H': [], 'S': []}
     for T in Ts:
         for q in ('Cp', 'H', 'S'):
-            okb, vb, eb = _call(getattr(twin, GETTER[q]), T=T)
+            okb, vb, eb = _call(getattr(twin, GETTER[q]), T=T, **(opts if q == 'S' else {}))
             if not okb or len(vb) != 1:
-                raise core.MachineryError('bare twin failed: %s %s at T=%r (%s)' % (case['fam'], q, T, eb))
+                raise core.MachineryError('bare twin failed: %s %s at T=%r (%s)' % (fam, q, T, eb))
             bare[q].append(to_dec(vb[0]))
     ms = []
     for m in (obj.misc_models or []):
@@ -293,12 +390,40 @@ def _eval_event(case, objs, op):
             ent['cB'] = _contrib(m, k, Ts, P, xB)
             ent['cC'] = _contrib(m, k, Ts, P, xC)
         ms.append(ent)
-    ev = {'ev': 'eval', 'o': op['o'], 'scalar': bool(op['scalar']), 'ttype': ttype,
-          'intT_nonint': ttype != 'float' and _nonint_contribution(ms),
+    ev = {'ev': 'eval', 'o': op['o'], 'scalar': bool(op['scalar']), 'ttype': ttype, 'ptype': ptype,
+          'xform': op.get('xform', 'routed'), 'S_el': bool(op.get('S_el')),
+          'intT_nonint': ttype not in FLOAT_TYPES and _nonint_contribution(ms),
           'Ts': [to_dec(t) for t in Ts], 'P': to_dec(P), 'lnP': to_dec(math.log(P)),
           'xB': to_dec(xB), 'xC': to_dec(xC), 'ok': ok, 'fin': fin,
           'r': {q: [to_dec(v) if core.finite(v) else [0, 0] for v in raw[q]] for q in raw},
-          'bare': bare, 'ms': ms, 'after': _proj(obj)}   # non-finite values: Finite fails instead
+          'bare': bare, 'ms': ms, 'after': _proj(obj),     # non-finite values: Finite fails instead
+          'hasdim': False, 'hasverb': False, 'misc_none': obj.misc_models is None}
+    # dimensional getters in one unit: same T, P and coverages must reach the attached models
+    units = op.get('units')
+    if units:
+        L = _lib()
+        ev['hasdim'] = True
+        ev['units'] = units
+        ev['R'] = to_dec(L.const.R(units))
+        ev['okd'], ev['dim'] = {}, {}
+        for q in QS:
+            u = units if q in ('Cp', 'S') else units[:-2]          # H and G: without '/K'
+            kw = dict(cond, **(opts if q in ('S', 'G') else {}))
+            okd, vd, ed = _call(getattr(obj, DIM_GETTER[q]), T=Targ, units=u, P=Parg, **kw)
+            ev['okd'][q] = okd
+            ev['dim'][q] = [to_dec(v) if core.finite(v) else [0, 0] for v in vd]
+            exc['dim' + q] = ed
+            fin = fin and all(core.finite(v) for v in vd)
+        ev['fin'] = fin
+    # StatMech: verbose=True places every attached model's own value after the six mode entries
+    if fam == 'StatMech':
+        ev['hasverb'] = True
+        ev['okv'], ev['verb'] = {}, {}
+        for q in QS:
+            okv, vv, evx = _call(getattr(obj, GETTER[q]), T=Targ, P=Parg, verbose=True, **cond)
+            ev['okv'][q] = okv
+            ev['verb'][q] = [to_dec(v) if core.finite(v) else [0, 0] for v in vv]
+            exc['verb' + q] = evx
     return ev, raw, ok, exc
 
 
@@ -382,12 +507,25 @@ def execute(case):
                 warnings.simplefilter('ignore')
                 if act in ('construct', 'sibling'):
                     if act == 'construct':
-                        caller = None if op['none'] else [_model(g, slopes) for g in op['given']]
+                        if op['none']:
+                            caller = None
+                        else:
+                            seen_k, caller = {}, []
+                            for g in op['given']:
+                                caller.append(_model(g, slopes, seen_k.get(g, 0)))
+                                seen_k[g] = seen_k.get(g, 0) + 1
+                            cont = op.get('container', 'list')
+                            if cont == 'tuple':
+                                caller = tuple(caller)
+                            elif cont == 'single':         # one model, not wrapped in a list
+                                if len(caller) != 1:
+                                    raise core.MachineryError('single needs exactly one model')
+                                caller = caller[0]
                     phase = None if op['phase'] == 'None' else op['phase']
-                    kw = {'phase': phase, 'misc_models': caller}
+                    kw = {'phase': phase, 'misc_models': caller, 'elements': {'H': 2}}
                     if not op['flag']:
                         kw['add_gas_P_adj'] = False
-                    objs.append(_mk(fam, coef, **kw))
+                    objs.append(_mk(fam, coef, via=op.get('via', 'direct'), **kw))
                     ev.update({'ev': 'construct', 'phase': op['phase'], 'flag': bool(op['flag']),
                                'none': bool(op.get('none', False)),
                                'given': list(op.get('given', [])), 'sib': act == 'sibling'})
@@ -405,7 +543,8 @@ def execute(case):
                         mism.append({'clause': 'ReloadRaises', 'step': k, 'exc': note,
                                      'detail': "Nasa9.from_dict: KeyError 'nasas' (worked around)"})
                 elif act == 'attach':
-                    objs[op['src'] - 1].misc_models.append(_model(op['kind'], slopes))
+                    tgt = objs[op['src'] - 1].misc_models
+                    tgt.append(_model(op['kind'], slopes, sum(1 for m in tgt if _kind(m) == op['kind'])))
                     ev.update({'src': op['src'], 'kind': op['kind']})
                 else:
                     raise core.MachineryError('unknown op %r' % (op,))
@@ -439,6 +578,8 @@ def _safe_execute(case):
 # case construction
 # --------------------------------------------------------------------------
 def _rand_coef(rnd, fam):
+    if fam == 'Reference':
+        return {}
     def nasa7():
         return [rnd.uniform(2.5, 8.0), rnd.uniform(-2e-3, 2e-3), rnd.uniform(-2e-6, 2e-6),
                 rnd.uniform(-2e-10, 2e-10), rnd.uniform(-2e-14, 2e-14),
@@ -459,10 +600,37 @@ def _rand_slopes(rnd):
             'C': [rnd.choice([-1, 1]) * rnd.uniform(2.0, 40.0) for _ in range(3)]}
 
 
-def _rand_eval(rnd, o, big=False):
+def _nextafter(x, to):
+    import numpy as np
+    return float(np.nextafter(x, to))
+
+
+def _rand_x(rnd):
+    """A coverage in [0, 1] and its class: both ends, the breakpoints of the coverage models
+    (0.3, 0.6), the doubles adjacent to a breakpoint, the interior."""
     r = rnd.random()
-    if big:
-        n, scalar = rnd.randint(20, 50), False
+    if r < 0.10:
+        return 0.0, 'zero'
+    if r < 0.20:
+        return 1.0, 'one'
+    if r < 0.30:
+        return rnd.choice([0.3, 0.6]), 'break'
+    if r < 0.40:
+        b = rnd.choice([0.3, 0.6])
+        return _nextafter(b, rnd.choice([0.0, 1.0])), 'adjacent'
+    if r < 0.45:
+        return _nextafter(rnd.choice([0.0, 1.0]), 0.5), 'adjacent_end'
+    return round(rnd.uniform(0.0, 1.0), 3), 'interior'
+
+
+def _rand_eval(rnd, o, big=False, fam='Nasa', k=0):
+    """One evaluation op.  k (a running number) rotates the units of the dimensional getters so
+    that every unit of pmutt.constants.R is used in every run."""
+    r = rnd.random()
+    if fam == 'StatMech':
+        n, scalar = 1, True                                    # StatMech evaluates one T
+    elif big:
+        n, scalar = rnd.choice([50, 50, rnd.randint(20, 49)]), False
     elif r < 0.3:
         n, scalar = 1, True
     elif r < 0.45:
@@ -470,16 +638,7 @@ def _rand_eval(rnd, o, big=False):
     else:
         n, scalar = rnd.randint(2, 6), False
     Ts = [round(rnd.uniform(150.0, 3000.0), rnd.choice([0, 1, 3])) for _ in range(n)]
-    r = rnd.random()
-    if r < 0.1:
-        P = 1.0
-    elif r < 0.2:
-        P = rnd.choice([1e-3, 1e2])
-    else:
-        P = 10.0 ** rnd.uniform(-3.0, 2.0)
-        if abs(math.log(P)) < 0.05:
-            P = 2.5
-    ttype = 'float'
+    ttype, order = 'float', 'shuffled'
     if rnd.random() < 0.3:              # integer-typed temperatures
         if scalar:
             ttype, Ts = 'intscalar', [float(rnd.randint(150, 3000))]
@@ -489,10 +648,44 @@ def _rand_eval(rnd, o, big=False):
                 step = rnd.randint(1, max(1, 2500 // n))
                 start = rnd.randint(150, 3000 - step * (n - 1))
                 Ts = [float(start + step * i) for i in range(n)]
+                order = 'ascending'
             else:
                 Ts = [float(rnd.randint(150, 3000)) for _ in range(n)]
-    return {'act': 'eval', 'o': o, 'scalar': scalar, 'Ts': Ts, 'P': P, 'ttype': ttype,
-            'xB': round(rnd.uniform(0.0, 1.0), 3), 'xC': round(rnd.uniform(0.0, 1.0), 3)}
+    else:
+        ttype = rnd.choice(['float', 'float', 'npfloat', 'floatlist', 'tuple'])
+    if n > 1 and ttype != 'arange':     # order of the array: ascending, descending, with duplicates
+        r = rnd.random()
+        if r < 0.2:
+            Ts, order = sorted(Ts), 'ascending'
+        elif r < 0.4:
+            Ts, order = sorted(Ts, reverse=True), 'descending'
+        elif r < 0.6:
+            Ts[rnd.randrange(1, n)] = Ts[0]
+            order = 'duplicates'
+    # pressure: both ends of 1e-3..1e2, 1 bar, the interior; integer-typed for integer pressures
+    r = rnd.random()
+    ptype = rnd.choice(['float', 'float', 'npfloat'])
+    if r < 0.1:
+        P = 1.0
+    elif r < 0.2:
+        P = rnd.choice([1e-3, 1e2])
+    elif r < 0.4:
+        P = float(rnd.choice([1, 2, 3, 5, 10, 50, 100]))
+        ptype = rnd.choice(['int', 'npint'])
+    else:
+        P = 10.0 ** rnd.uniform(-3.0, 2.0)
+        if abs(math.log(P)) < 0.05:
+            P = 2.5
+    (xB, clsB), (xC, clsC) = _rand_x(rnd), _rand_x(rnd)
+    r = rnd.random()
+    xform = 'routed' if r < 0.7 else 'toplevel' if r < 0.8 else 'missingC' if r < 0.9 else 'missingBoth'
+    op = {'act': 'eval', 'o': o, 'scalar': scalar, 'Ts': Ts, 'P': P, 'ttype': ttype, 'ptype': ptype,
+          'order': order if n > 1 else 'single', 'xB': xB, 'xC': xC, 'xcls': [clsB, clsC], 'xform': xform}
+    if rnd.random() < 0.6:
+        op['units'] = DIM_UNITS[k % len(DIM_UNITS)]
+    if fam in EMPIRICAL and rnd.random() < 0.15:
+        op['S_el'] = True
+    return op
 
 
 def _grid_case(c, cid):
@@ -509,6 +702,8 @@ def _grid_case(c, cid):
     # the grid temperatures 256 tau are integers: the same totals must come back when they are
     # passed integer-typed (every 2nd Shomate case, every 4th Nasa/Nasa9 case, types in rotation)
     k = int(cid[1:]) if cid[1:].isdigit() else 0
+    if k % 4 == 1:
+        ops[1]['units'] = DIM_UNITS[(k // 4) % len(DIM_UNITS)]
     if k % (2 if c['fam'] == 'Shomate' else 4) == 0:
         if c['scalar']:
             tt = 'intscalar'
@@ -521,18 +716,35 @@ def _grid_case(c, cid):
             'sig': [c['fam'], misc, n, bool(c['scalar']), c['P4'], c['xB'], c['xC']]}
 
 
-def _beh_case(h, cid, rnd):
-    fam = rnd.choice(['Nasa', 'Nasa9', 'Shomate'])
+def _beh_case(h, cid, rnd, k=0):
+    """A TLC lifecycle behaviour.  Every 8th one is replayed on pmutt.empirical.references.Reference,
+    the other class that inherits EmpiricalBase.__init__ (no thermodynamic getters of its own
+    that take attached models: lifecycle clauses only)."""
+    fam = 'Reference' if k % 8 == 7 else rnd.choice(['Nasa', 'Nasa9', 'Shomate'])
+    if fam == 'Reference' and any(r['act'] == 'reload' for r in h):
+        fam = 'Nasa'                       # Reference serialisation is C11's subject
     ops = []
+    ne = 0
     for r in h:
         a = r['args']
         op = {'act': r['act'], 'exp_objs': r['objs']}
         op.update(a)
+        if r['act'] == 'construct' and not a['none']:
+            c = rnd.random()
+            op['container'] = ('tuple' if c < 0.25 else
+                               'single' if (c < 0.5 and len(a['given']) == 1 and a['given'][0] != 'PAdjDict')
+                               else 'list')      # the to_dict() form only occurs inside a list
+        if r['act'] == 'construct' and fam in EMPIRICAL and rnd.random() < 0.2:
+            op['via'] = 'from_data'
         ops.append(op)
+        if fam == 'Reference':
+            continue
         o = len(r['objs'])
-        ops.append(_rand_eval(rnd, o))
+        ops.append(_rand_eval(rnd, o, fam=fam, k=k + ne))
+        ne += 1
         if o > 1 and rnd.random() < 0.5:
-            ops.append(_rand_eval(rnd, rnd.randint(1, o - 1)))
+            ops.append(_rand_eval(rnd, rnd.randint(1, o - 1), fam=fam, k=k + ne))
+            ne += 1
     return {'cid': cid, 'kind': 'beh', 'fam': fam, 'coef': _rand_coef(rnd, fam),
             'slopes': _rand_slopes(rnd), 'ops': ops,
             'sig': [fam, [[r['act'], r['args']] for r in h]]}
@@ -541,21 +753,62 @@ def _beh_case(h, cid, rnd):
 KINDS_ALL = ['PAdj', 'CovB', 'CovC', 'P1', 'P2B', 'P2C']
 
 
-def _random_case(rnd, cid):
+GAS_PHASES = ('g', 'gas', 'G')
+OTHER_PHASES = ('s', 'S', 'None', 'l', 'L', 'surface', 'solid', 'aq', 'a', 'as', 'ga', 'sa', '', ' g')
+
+
+def _statmech_case(rnd, cid, k):
+    """StatMech as a carrier of misc_models (coverage models and probes; a GasPressureAdj is
+    documented for empirical objects only): construct, evaluate at one T (also verbose=True and
+    with units), deepcopy / reload, evaluate again."""
+    pool = ['CovB', 'CovC', 'P1', 'P2B', 'P2C', 'CovB', 'CovC']
+    rnd.shuffle(pool)
+    none = rnd.random() < 0.1
+    given = [] if none else pool[:rnd.randint(0, 4)]
+    c = rnd.random()
+    ops = [{'act': 'construct', 'phase': 'None', 'flag': True, 'none': none, 'given': given,
+            'container': 'tuple' if (c < 0.3 and not none) else 'list'},
+           _rand_eval(rnd, 1, fam='StatMech', k=k)]
+    for j in range(rnd.randint(0, 2)):
+        r = rnd.random()
+        ops.append({'act': 'deepcopy', 'src': 1} if r < 0.4 else
+                   {'act': 'reload', 'src': 1, 'via': 'dict' if r < 0.7 else 'json'})
+        ops.append(_rand_eval(rnd, j + 2, fam='StatMech', k=k + j + 1))
+    return {'cid': cid, 'kind': 'real', 'fam': 'StatMech',
+            'coef': {'wn': [round(rnd.uniform(200.0, 3000.0), 1) for _ in range(rnd.randint(1, 4))]},
+            'slopes': _rand_slopes(rnd), 'ops': ops,
+            'sig': ['StatMech', given, [[o['act'], o.get('via')] for o in ops if o['act'] != 'eval']]}
+
+
+def _random_case(rnd, cid, k=0):
+    if k % 6 == 5:
+        return _statmech_case(rnd, cid, k)
     fam = rnd.choice(['Nasa', 'Nasa9', 'Shomate'])
-    phase = rnd.choice(['g', 'gas', 'G', 's', 'S', 'None'])
-    gas = phase in ('g', 'gas', 'G')
+    phase = rnd.choice(GAS_PHASES + GAS_PHASES + OTHER_PHASES[:3] * 2 + OTHER_PHASES[3:])
+    gas = phase in GAS_PHASES
     flag = rnd.random() < 0.75
     none = rnd.random() < 0.15
     given = []
     if not none:
-        pool = [k for k in KINDS_ALL if k != 'PAdj']
+        # coverage kinds may repeat: two coverage models with the same name_j
+        pool = [k_ for k_ in KINDS_ALL if k_ != 'PAdj'] + ['CovB', 'CovC']
         rnd.shuffle(pool)
         given = pool[:rnd.randint(0, 4)]
         if gas and rnd.random() < 0.4 and len(given) < 4:
             given.insert(rnd.randint(0, len(given)), 'PAdjDict' if (flag and rnd.random() < 0.4) else 'PAdj')
-    ops = [{'act': 'construct', 'phase': phase, 'flag': flag, 'none': none, 'given': given}]
-    ops.append(_rand_eval(rnd, 1, big=rnd.random() < 0.08))
+    c = rnd.random()
+    cons = {'act': 'construct', 'phase': phase, 'flag': flag, 'none': none, 'given': given,
+            'container': 'list' if none or c < 0.6 else
+                         'single' if (len(given) == 1 and c < 0.8 and given[0] != 'PAdjDict') else 'tuple'}
+    if rnd.random() < 0.12:
+        cons['via'] = 'from_data'
+    ops = [cons]
+    ne = [k]
+
+    def ev(o, big=False):
+        ne[0] += 1
+        return _rand_eval(rnd, o, big=big, fam=fam, k=ne[0])
+    ops.append(ev(1, big=rnd.random() < 0.08))
     nobj = 1
     for _ in range(rnd.randint(0, 5)):
         r = rnd.random()
@@ -563,7 +816,7 @@ def _random_case(rnd, cid):
         if r < 0.4:
             ops.append({'act': 'reload', 'src': src, 'via': rnd.choice(['dict', 'json'])})
         elif r < 0.55 and not none and 'PAdjDict' not in given:
-            p2 = rnd.choice(['g', 'gas', 'G', 's', 'S', 'None'])
+            p2 = rnd.choice(GAS_PHASES + OTHER_PHASES)
             ops.append({'act': 'sibling', 'phase': p2, 'flag': rnd.random() < 0.75})
         elif r < 0.7:
             ops.append({'act': 'copy', 'src': src})
@@ -574,14 +827,14 @@ def _random_case(rnd, cid):
                 continue
             ops.append({'act': 'attach', 'src': src,
                         'kind': rnd.choice(['CovB', 'CovC', 'P1', 'P2B', 'P2C'])})
-            ops.append(_rand_eval(rnd, ops[-1]['src']))
+            ops.append(ev(ops[-1]['src']))
             continue
         nobj += 1
-        ops.append(_rand_eval(rnd, nobj))
+        ops.append(ev(nobj))
     return {'cid': cid, 'kind': 'real', 'fam': fam, 'coef': _rand_coef(rnd, fam),
             'slopes': _rand_slopes(rnd), 'ops': ops,
             'sig': [fam, [[o['act'], o.get('phase'), o.get('flag'), o.get('given'), o.get('src'),
-                           o.get('via'), o.get('kind')] for o in ops if o['act'] != 'eval']]}
+                           o.get('via'), o.get('kind'), o.get('container')] for o in ops if o['act'] != 'eval']]}
 
 
 # --------------------------------------------------------------------------
@@ -592,8 +845,16 @@ def _tags(case, ev=None, clause='', extra=None):
         if ev.get('ev') == 'eval':
             t['tshape'] = 'scalar' if ev.get('scalar') else 'array'
             t['ttype'] = ev.get('ttype', 'float')
+            t['ptype'] = ev.get('ptype', 'float')
+            t['nT'] = len(ev.get('Ts', []))
+            t['xform'] = ev.get('xform', 'routed')
+            if clause.startswith(('DimFollows', 'RaisesDim')):
+                t['units'] = ev.get('units', '')
+            if clause == 'RaisesDim':
+                ex_ = ev.get('exc') or {}
+                t['exc'] = '/'.join('%s:%s' % (q_, ex_.get('dim' + q_)) for q_ in ('Cp', 'H', 'S', 'G') if ex_.get('dim' + q_))
             for q in ('Cp', 'H', 'S', 'G'):
-                if clause.endswith(q) and clause[:-len(q)] in ('Raises', 'Shape', 'SumOnce'):
+                if clause.endswith(q) and clause[:-len(q)] in ('Raises', 'Shape', 'SumOnce', 'DimFollows'):
                     t['q'] = q
                     if clause.startswith('Raises'):
                         t['exc'] = (ev.get('exc') or {}).get(q, '')
@@ -674,6 +935,14 @@ def run(ctx):
                          'T added unsummed): assumption EvalRefines is false, e.g. %s'
                          % (json.dumps(wit[0], sort_keys=True) if wit else '?'))
         gcases.sort(key=lambda c: json.dumps(c, sort_keys=True))
+        # lists one longer than the exhaustive bound: a sample rotating with the seed in the quick
+        # tier (the thorough tier enumerates them: MaxLen = 4)
+        longest = max(len(c['misc']) for c in gcases)
+        if ctx.quick:
+            longc = [c for c in gcases if len(c['misc']) == longest]
+            rnd.shuffle(longc)
+            keep = set(id(c) for c in longc[:700])
+            gcases = [c for c in gcases if len(c['misc']) < longest or id(c) in keep]
         for k, c in enumerate(gcases):
             cases.append(_grid_case(c, 'e%d' % k))
         # (S->C) lifecycle behaviours
@@ -694,9 +963,9 @@ def run(ctx):
             ctx.coverage['tlc_simulated_behaviours'] = len(sim)
             behs += sim
         for k, h in enumerate(behs):
-            cases.append(_beh_case(h, 'b%d' % k, rnd))
+            cases.append(_beh_case(h, 'b%d' % k, rnd, k))
         for k in range(ctx.pick(600, 8000)):
-            cases.append(_random_case(rnd, 'r%d' % k))
+            cases.append(_random_case(rnd, 'r%d' % k, k))
     phase['tlc_models_and_cases'] = round(time.time() - t0, 1)
     t1 = time.time()
     results = core.pmap(_safe_execute, cases)
@@ -704,6 +973,11 @@ def run(ctx):
     traces = []
     n_ep = 0
     n_int = {}
+    cnt = {}
+
+    def bump(group, key):
+        g = cnt.setdefault(group, {})
+        g[str(key)] = g.get(str(key), 0) + 1
     for tid, (case, (events, mism)) in enumerate(zip(cases, results)):
         if events is None:
             raise core.MachineryError('driver failure in case %s: %s' % (case.get('cid'), mism))
@@ -717,6 +991,42 @@ def run(ctx):
         for e in events:
             if e['ev'] == 'eval' and e.get('intT_nonint'):
                 n_int[case['fam']] = n_int.get(case['fam'], 0) + 1
+            if e['ev'] == 'eval':
+                carries = bool(e['ms'])
+                bump('eval_family', case['fam'])
+                bump('T_type', e['ttype'])
+                bump('P_type', e['ptype'])
+                if carries:
+                    bump('coverage_form_with_models', e['xform'])
+                    bump('nmodels', len(e['ms']))
+                if e['hasdim'] and carries:
+                    bump('dimensional_units_with_models', e['units'])
+                if e['S_el'] and carries:
+                    bump('options', 'S_elements')
+                if e['hasverb'] and carries:
+                    bump('options', 'verbose')
+                ks = [m['k'] for m in e['ms']]
+                if any(ks.count(c_) > 1 for c_ in ('CovB', 'CovC')):
+                    bump('two_cov_same_name_j', case['fam'])
+                if 'CovB' in ks and 'CovC' in ks:
+                    bump('two_cov_different_name_j', case['fam'])
+            elif e['ev'] == 'construct' and not e['raised']:
+                bump('phase', e['phase'])
+                bump('carrier_constructed', case['fam'])
+            elif e['ev'] == 'reload' and not e['raised']:
+                bump('reload_family', case['fam'] + '/' + e['via'])
+        for o in case['ops']:
+            if o['act'] == 'construct':
+                bump('container', 'None' if o['none'] else o.get('container', 'list'))
+                bump('constructor', o.get('via', 'direct'))
+                bump('flag', bool(o['flag']))
+            elif o['act'] == 'eval':
+                bump('T_order', o.get('order', 'grid'))
+                bump('T_count', 'scalar' if o['scalar'] else min(len(o['Ts']), 50) if len(o['Ts']) in (1, 50) else '2-49')
+                for c_ in o.get('xcls', []):
+                    bump('coverage_class', c_)
+                P_ = float(o['P'])
+                bump('P_class', '1bar' if P_ == 1.0 else 'low_end' if P_ == 1e-3 else 'high_end' if P_ == 1e2 else 'interior')
         for m in mism:
             ev = None
             tags = _tags(case, None, m['clause'],
@@ -735,6 +1045,25 @@ def run(ctx):
     ctx.coverage['trace_lines'] = stats['lines']
     ctx.coverage['entropy_pressure_antecedent_true'] = n_ep
     ctx.coverage['integer_typed_T_with_noninteger_contribution'] = n_int
+    ctx.coverage['input_classes'] = cnt
+    if ctx.replay_case is None:
+        need = {'eval_family': ['Nasa', 'Nasa9', 'Shomate', 'StatMech'],
+                'carrier_constructed': ['Nasa', 'Nasa9', 'Shomate', 'StatMech', 'Reference'],
+                'T_type': list(FLOAT_TYPES) + list(INT_TYPES), 'P_type': ['float', 'npfloat', 'int', 'npint'],
+                'coverage_form_with_models': ['routed', 'toplevel', 'missingC', 'missingBoth'],
+                'dimensional_units_with_models': list(DIM_UNITS), 'options': ['S_elements', 'verbose'],
+                'two_cov_same_name_j': ['Nasa', 'Nasa9', 'Shomate', 'StatMech'],
+                'two_cov_different_name_j': ['Nasa', 'Nasa9', 'Shomate', 'StatMech'],
+                'phase': list(GAS_PHASES) + list(OTHER_PHASES),
+                'container': ['None', 'list', 'tuple', 'single'], 'constructor': ['direct', 'from_data'],
+                'flag': ['True', 'False'], 'T_order': ['ascending', 'descending', 'duplicates', 'shuffled'],
+                'T_count': ['scalar', '1', '2-49', '50'],
+                'coverage_class': ['zero', 'one', 'break', 'adjacent', 'adjacent_end', 'interior'],
+                'P_class': ['1bar', 'low_end', 'high_end', 'interior'], 'nmodels': ['1', '2', '3', '4', '5'],
+                'reload_family': [f + '/' + v for f in ('Nasa', 'Nasa9', 'Shomate', 'StatMech') for v in ('dict', 'json')]}
+        empty = ['%s:%s' % (g, k_) for g, ks_ in need.items() for k_ in ks_ if not cnt.get(g, {}).get(k_)]
+        if empty:
+            raise core.MachineryError('vacuous input classes (never exercised this run): %s' % ', '.join(empty))
     if ctx.replay_case is None and min(n_int.get(f, 0) for f in ('Nasa', 'Nasa9', 'Shomate')) < 50:
         raise core.MachineryError('vacuous: too few evaluations with integer-typed T and a non-integer '
                                   'contribution: %r' % (n_int,))
